@@ -3239,8 +3239,8 @@ func (n *RegisteredNexthop) serialize(version uint8, software Software) ([]byte,
 	buf[0] = n.connected // stream_putc(s, (connected) ? 1 : 0);
 	pos := 1
 	if version == 6 && software.name == "frr" && software.version >= 8.2 {
-		buf[1] = n.resolveViaDef
-		binary.BigEndian.PutUint16(buf[1:3], uint16(SafiUnicast)) // stream_putw(s, PREFIX_FAMILY(p));
+		buf[1] = n.resolveViaDef                                  // stream_putc(s, resolve_via_default);
+		binary.BigEndian.PutUint16(buf[2:4], uint16(SafiUnicast)) // stream_putw(s, safi);
 		pos += 3
 	}
 	// Address Family (2 bytes)
@@ -3252,7 +3252,7 @@ func (n *RegisteredNexthop) serialize(version uint8, software Software) ([]byte,
 		return nil, err
 	}
 
-	buf[3] = byte(addrByteLen * 8) // stream_putc(s, p->prefixlen);
+	buf[pos+2] = byte(addrByteLen * 8) // stream_putc(s, p->prefixlen);
 	// pos += 1
 	// Prefix (variable)
 	switch n.Family {
